@@ -8,6 +8,8 @@
  *   cmp <type> <min|-> <max|-> <value> <D>  carquet_statistics_compare
  *   ovl <type> <min|-> <max|-> <qmin|N> <qmax|N> <D>     carquet_statistics_range_overlaps
  *   pm  <type> <pages> <idx> <qmin|N> <qmax|N> <D>       carquet_column_index_page_might_match; page = nulls/min/max/nullpage
+ *   file <type> <nullable> <row groups> <op> <probe> [<page_size>]     the public writer (statistics on) into memory, then the public reader:
+ *                                           row group = batches joined by ","; row groups joined by ";"
  *
  * Values are hex byte strings in memory order; "e" is the empty byte string, "-" an absent one.
  * Every answer ends with the BRUTE-FORCE GROUND TRUTH computed here with C's own operators on the decoded
@@ -340,6 +342,96 @@ static void do_pm(void) {
     carquet_column_index_builder_destroy(b);
 }
 
+/* ------------------------------------------------------------------ file: the public writer, then the public reader */
+static void do_file(void) {
+    int type = atoi(h_tok[1]), nullable = atoi(h_tok[2]), op = atoi(h_tok[4]);
+    val_t probe = unhex(h_tok[5]);
+    carquet_error_t err = CARQUET_ERROR_INIT;
+    carquet_schema_t* sc = carquet_schema_create(&err);
+    if (!sc || carquet_schema_add_column(sc, "c", (carquet_physical_type_t)type, NULL,
+                                         nullable ? CARQUET_REPETITION_OPTIONAL : CARQUET_REPETITION_REQUIRED, 0) != CARQUET_OK) {
+        puts("ERR schema"); free(probe.base); return;
+    }
+    char* mem = NULL; size_t msz = 0;
+    FILE* f = open_memstream(&mem, &msz);
+    carquet_writer_options_t wo; carquet_writer_options_init(&wo);
+    wo.compression = CARQUET_COMPRESSION_UNCOMPRESSED;
+    wo.write_statistics = true;
+    if (h_ntok == 7 && atoi(h_tok[6]) > 0) wo.page_size = atoi(h_tok[6]);
+    carquet_writer_t* w = carquet_writer_create_file(f, sc, &wo, &err);
+    if (!w) { printf("ERR writer %d\n", (int)err.code); fclose(f); free(mem); carquet_schema_free(sc); free(probe.base); return; }
+    /* ground truth per row group, computed while the data goes in */
+    char truth[64]; int ng = 0;
+    fputs("OK w=", stdout);
+    char* sg = NULL; int firstw = 1;
+    for (char* g = strtok_r(h_tok[3], ";", &sg); g && ng < 60; g = strtok_r(NULL, ";", &sg)) {
+        int any = 0;
+        char* sb = NULL;
+        for (char* bt = strtok_r(g, ",", &sb); bt; bt = strtok_r(NULL, ",", &sb)) {
+            char* fl[3]; int nf = 0; char* sv = NULL;
+            for (char* x = strtok_r(bt, "/", &sv); x && nf < 3; x = strtok_r(NULL, "/", &sv)) fl[nf++] = x;
+            if (nf != 3) continue;
+            val_t* v; int n = split_vals(fl[0], &v);
+            long nv = atol(fl[2]);
+            size_t wd = n ? v[0].n : 0;
+            uint8_t* arr = malloc(wd * (size_t)n + 8);
+            for (int i = 0; i < n; i++) { memcpy(arr + wd * (size_t)i, v[i].p, wd); if (truth_sat(type, op, &v[i], &probe)) any = 1; }
+            int16_t* defs = NULL;
+            if (strcmp(fl[1], "-")) {
+                size_t k = strlen(fl[1]);
+                defs = malloc(sizeof *defs * (k ? k : 1));
+                for (size_t i = 0; i < k; i++) defs[i] = (int16_t)(fl[1][i] - '0');
+            }
+            carquet_status_t st = carquet_writer_write_batch(w, 0, arr, nv, defs, NULL);
+            printf("%s%d", firstw ? "" : ",", (int)st); firstw = 0;
+            free(arr); free(defs); free_vals(v, n);
+        }
+        truth[ng++] = any ? '1' : '0';
+        carquet_status_t st = carquet_writer_new_row_group(w);
+        printf("%s%d", firstw ? "" : ",", (int)st); firstw = 0;
+    }
+    truth[ng] = 0;
+    carquet_status_t cst = carquet_writer_close(w);
+    fclose(f);
+    printf(" close=%d", (int)cst);
+    if (cst == CARQUET_OK) {
+        uint8_t* exact = malloc(msz ? msz : 1);
+        memcpy(exact, mem, msz);
+        fputs(" file=", stdout); h_puthex(exact, msz);
+        carquet_error_t e2 = CARQUET_ERROR_INIT;
+        carquet_reader_t* r = carquet_reader_open_buffer(exact, msz, NULL, &e2);
+        if (!r) printf(" open=%d", (int)e2.code);
+        else {
+            int nrg = carquet_reader_num_row_groups(r);
+            printf(" nrg=%d cs=", nrg);
+            for (int i = 0; i < nrg; i++) {
+                carquet_column_statistics_t cs; memset(&cs, 0, sizeof cs);
+                carquet_status_t st = carquet_reader_column_statistics(r, i, 0, &cs);
+                if (i) putchar(';');
+                if (st != CARQUET_OK) { printf("E%d", (int)st); continue; }
+                printf("%d:%d:%lld:%lld:", cs.has_min_max ? 1 : 0, cs.has_null_count ? 1 : 0,
+                       (long long)(cs.has_null_count ? cs.null_count : 0), (long long)cs.num_values);
+                if (cs.has_min_max) { h_puthex(cs.min_value, (size_t)cs.min_value_size); putchar(':'); h_puthex(cs.max_value, (size_t)cs.max_value_size); }
+                else fputs("-:-", stdout);
+            }
+            if (!nrg) putchar('-');
+            fputs(" m=", stdout);
+            for (int i = 0; i < nrg; i++) {
+                bool m = false;
+                carquet_status_t st = carquet_reader_row_group_matches(r, i, 0, (carquet_compare_op_t)op, probe.p, (int32_t)probe.n, &m);
+                printf("%s%d:%d", i ? ";" : "", (int)st, m ? 1 : 0);
+            }
+            if (!nrg) putchar('-');
+            carquet_reader_close(r);
+        }
+        free(exact);
+    }
+    printf(" T=%s\n", ng ? truth : "-");
+    free(mem);
+    carquet_schema_free(sc);
+    free(probe.base);
+}
+
 int main(void) {
     while (h_readline()) {
         h_split();
@@ -350,6 +442,7 @@ int main(void) {
         else if (!strcmp(h_tok[0], "cmp") && h_ntok == 6) do_cmp();
         else if (!strcmp(h_tok[0], "ovl") && h_ntok == 7) do_ovl();
         else if (!strcmp(h_tok[0], "pm") && h_ntok == 7) do_pm();
+        else if (!strcmp(h_tok[0], "file") && (h_ntok == 6 || h_ntok == 7)) do_file();
         else puts("ERR unknown-op");
         fflush(stdout);
     }
